@@ -355,6 +355,50 @@ theorem dynamic_fold_buffer_some (allocOk : Nat → Bool) (junk : Nat) (key : Dy
     obtain ⟨h1, h2⟩ := dynamicCb_buffer_some allocOk junk key c hall hb hpos
     exact ih _ h1 h2
 
+/-- the buffer pointer is NULL exactly when an allocation has failed so far -/
+theorem dynamicCb_null_iff (mallocOk : Bool) (allocOk : Nat → Bool) (junk : Nat) (key : DynKey) (c : Bytes)
+    (h : key.buffer = none ↔ AllocFailed mallocOk allocOk key.allocs) :
+    (dynamicCb allocOk junk key c).1.buffer = none ↔
+      AllocFailed mallocOk allocOk (dynamicCb allocOk junk key c).1.allocs := by
+  unfold dynamicCb
+  cases hb : key.buffer with
+  | none => simpa [hb] using h
+  | some b =>
+    have hok : ¬ AllocFailed mallocOk allocOk key.allocs := fun hf => by
+      have := h.mpr hf; rw [hb] at this; cases this
+    simp only
+    by_cases hgrow : key.computedSize + c.length ≥ key.bufferSize
+    · simp only [hgrow, if_true]
+      cases hg : growLoop key.bufferSize (key.computedSize + c.length) with
+      | none => simpa [hb] using h
+      | some ns =>
+        simp only
+        by_cases ha : allocOk key.allocs = true
+        · simp only [ha, if_true]
+          constructor
+          · intro hn; cases hn
+          · rintro (hm | ⟨i, hi, hf⟩)
+            · exact absurd (Or.inl hm) hok
+            · by_cases hlt : i < key.allocs
+              · exact absurd (Or.inr ⟨i, hlt, hf⟩) hok
+              · have : i = key.allocs := by omega
+                subst this; rw [ha] at hf; cases hf
+        · simp only [ha]
+          constructor
+          · intro _
+            exact Or.inr ⟨key.allocs, by simp, by simpa using ha⟩
+          · intro _; rfl
+    · simp only [hgrow, if_false]
+      simpa [hb] using h
+
+theorem dynamic_fold_null_iff (mallocOk : Bool) (allocOk : Nat → Bool) (junk : Nat) (key : DynKey) (chunks : List Bytes)
+    (h : key.buffer = none ↔ AllocFailed mallocOk allocOk key.allocs) :
+    (foldCb (dynamicCb allocOk junk) key chunks).buffer = none ↔
+      AllocFailed mallocOk allocOk (foldCb (dynamicCb allocOk junk) key chunks).allocs := by
+  induction chunks generalizing key with
+  | nil => simpa using h
+  | cons c cs ih => exact ih _ (dynamicCb_null_iff mallocOk allocOk junk key c h)
+
 
 /-! ### a callback that fails at invocation k, caught by callback_failure_catch_cb -/
 
@@ -498,9 +542,24 @@ theorem dynFinal_inv (syn : Syntax) (ops : Option TypeOps) (mallocOk : Bool) (al
   have := dynamic_fold_inv allocOk junk [] _ (delivered syn ops) hinv0
   simpa [dynFinal] using this
 
+/-- no allocation ever fails ⇒ "the allocation failed" is false -/
+theorem not_allocFailed (allocOk : Nat → Bool) (hall : ∀ i, allocOk i = true) (n : Nat) : ¬ AllocFailed true allocOk n := by
+  rintro (h | ⟨i, _, hi⟩)
+  · cases h
+  · rw [hall i] at hi; cases hi
+
+/-- NULL exactly when the initial MALLOC or one of the REALLOCs made during the run failed -/
+theorem dynFinal_null_iff (syn : Syntax) (ops : Option TypeOps) (mallocOk : Bool) (allocOk : Nat → Bool) (junk : Nat) :
+    (dynFinal syn ops mallocOk allocOk junk).buffer = none ↔
+      AllocFailed mallocOk allocOk (dynFinal syn ops mallocOk allocOk junk).allocs := by
+  apply dynamic_fold_null_iff
+  cases mallocOk <;> simp [AllocFailed]
+
 theorem toNewBuffer_closed (syn : Syntax) (ops : Option TypeOps) (mallocOk : Bool) (allocOk : Nat → Bool) (junk : Nat) :
     asnEncodeToNewBuffer syn ops mallocOk allocOk junk =
       if BadAccounting syn ops then .abort
+      else if (reported syn ops).encoded < 0 then
+        .done ⟨none, reported syn ops, { dynFinal syn ops mallocOk allocOk junk with buffer := none }⟩
       else match (dynFinal syn ops mallocOk allocOk junk).buffer with
         | none => .done ⟨none, reported syn ops, dynFinal syn ops mallocOk allocOk junk⟩
         | some b => .done ⟨some (writeAt b (total (delivered syn ops)) [0]), reported syn ops,
@@ -517,11 +576,15 @@ theorem toNewBuffer_closed (syn : Syntax) (ops : Option TypeOps) (mallocOk : Boo
   by_cases hbad : BadAccounting syn ops
   · rw [if_pos hbad]; unfold BadAccounting at hbad; rw [if_pos hbad]
   · rw [if_neg hbad]; unfold BadAccounting at hbad; rw [if_neg hbad]
-    cases hb : (dynFinal syn ops mallocOk allocOk junk).buffer with
-    | none => rfl
-    | some b =>
-      obtain ⟨_, hlt, _⟩ := hl b hb
-      rw [hc] at hlt
-      simp only [hlt, not_true_eq_false, if_false]
+    by_cases hneg : (reported syn ops).encoded < 0
+    · rw [if_pos hneg]; simp only [hneg, if_true]
+    · rw [if_neg hneg]; simp only [hneg, if_false]
+      cases hb : (dynFinal syn ops mallocOk allocOk junk).buffer with
+      | none => rfl
+      | some b =>
+        obtain ⟨_, hlt, _⟩ := hl b hb
+        rw [hc] at hlt
+        rw [hc]
+        simp only [hlt, not_true_eq_false, if_false]
 
 end Asn1c.Proofs.Application
